@@ -384,7 +384,7 @@ func canonJSON(v any) string {
 
 // ---------------------------------------------------------------- C29
 
-const ruleC29 = "ledgers in strict and in audit enforcement mode receive a generated schema (random chart as in C30, with or without transaction templates) and then a history of writes: creates by postings whose accounts lie inside / outside the chart, creates through a template or without one, account metadata writes, reverts, each naming the schema version, an unknown version, or none. Oracle from the chart as written (reference matcher): strict mode rejects a missing or unknown version, a posting outside the chart and a missing template, with every table unchanged; audit mode accepts missing version, outside accounts and missing template; accounts the chart declares receive its default metadata when first created and never afterwards, existing values are never overwritten (account metadata read back after every write); non-trivial = history with >= 1 rejected and >= 1 accepted write under a schema and an account created with defaults; distinct = by schema + history"
+const ruleC29 = "ledgers in strict and in audit enforcement mode receive a generated schema (random chart as in C30, with or without transaction templates) at the start of, in the middle of (after schema-less writes on the same controller chain), or never during a history of writes: creates by postings whose accounts lie inside / outside the chart, creates through a template or without one, account metadata writes, reverts, each naming the schema version, an unknown version, or none. Oracle from the chart as written (reference matcher): strict mode rejects a missing or unknown version, a posting outside the chart and a missing template, with every table unchanged; audit mode accepts missing version, outside accounts and missing template; accounts the chart declares receive its default metadata when first created and never afterwards, existing values are never overwritten (account metadata read back after every write); non-trivial = history with >= 1 rejected and >= 1 accepted write under a schema and an account created with defaults; distinct = by schema + history"
 
 type c29Write struct {
 	Kind     string // create, saveAccMeta, revert
@@ -445,15 +445,22 @@ func TestC29(t *testing.T) {
 		defer w.Close()
 		l := w.AddLedger("l1", "b1", features.DefaultFeatures)
 		hist := []string{fmt.Sprintf("mode=%s schema=%s", mode, raw)}
-		withSchema := rapid.IntRange(0, 6).Draw(rt, "insertSchema") != 0
-		if withSchema {
+		// the schema is adopted at the start of the history, in the middle of it (after writes that knew no
+		// schema, on the same controller chain), or never
+		withSchema := false
+		insertSchema := func() {
 			if _, _, _, err := l.C.InsertSchema(w.Ctx, ledgercontroller.Parameters[ledgercontroller.InsertSchema]{Input: ledgercontroller.InsertSchema{Version: "v1", Data: data}}); err != nil {
 				w.checkErr(err)
 				rt.Fatalf("VIOLATION[C29]: a valid schema is refused: %v\n%s", err, raw)
 			}
-		} else {
-			hist = append(hist, "(schema not inserted)")
+			withSchema = true
+			hist = append(hist, "insert schema v1")
 		}
+		adoption := rapid.SampledFrom([]string{"first", "first", "later", "later", "never"}).Draw(rt, "schemaAdoption")
+		if adoption == "first" {
+			insertSchema()
+		}
+		var preSchemaWrites int
 		// model: account -> metadata (existence = key present)
 		model := map[string]map[string]string{}
 		var txIDs []uint64
@@ -633,9 +640,26 @@ func TestC29(t *testing.T) {
 			}
 		}
 		setSteps(10)
-		rt.Repeat(map[string]func(*rapid.T){"write": step})
+		actions := map[string]func(*rapid.T){"write": func(t *rapid.T) {
+			if !withSchema {
+				preSchemaWrites++
+			}
+			step(t)
+		}}
+		if adoption == "later" {
+			actions["adoptSchema"] = func(t *rapid.T) {
+				if withSchema || preSchemaWrites == 0 {
+					return
+				}
+				insertSchema()
+			}
+		}
+		rt.Repeat(actions)
 		var classes []string
-		classes = append(classes, "mode:"+string(mode))
+		classes = append(classes, "mode:"+string(mode), "adoption:"+adoption)
+		if adoption == "later" && withSchema {
+			classes = append(classes, "schema-adopted-after-writes")
+		}
 		if hasTemplates {
 			classes = append(classes, "templates")
 		}
